@@ -71,6 +71,10 @@ def dsp_table(ctx, th):
         E("FftFilter", {"taps": tc}, "small", n, F("fftfiltc", taps=tc), extra={"out_round": True})
     E("FftFilterFloat", {"taps": [1, 2, 3]}, "small", 3000, F("fftfilt", taps=[1, 2, 3]), extra={"out_round": True})
     E("FftFilter", {"taps": [[1, 1], [0, -2]]}, "small", 3001, F("fftfiltc", taps=[[1, 1], [0, -2]]), extra={"out_round": True})
+    # FFT stream framing (bin 0 of every frame = sum of the frame; whole frames only), incl. inputs
+    # longer than the output stream so that the output is the short side
+    for size, n in ((4, 43), (8, 1500), (7, 1300), (16, 2100)):
+        E("FftStream", {"size": size}, "small", n, F("fftframes", size=size))
     # FM demodulators
     E("FastFM", {}, "small", 60, F("fastfm"), sync=True)
     for g8 in (1, 2):
